@@ -31,7 +31,8 @@ TMP = c01.TMP
 
 @st.composite
 def cases(draw, tier):
-    spec = draw(gen.h5_table_specs(tier, allow_empty_axis=True, poke=True))
+    spec = draw(gen.h5_table_specs(tier, allow_empty_axis=True, poke=True,
+                                   big=True))
     writer = draw(st.sampled_from(["to_hdf5", "save_table", "to_hdf5",
                                    "convert"]))
     # where the table written comes from: built in memory, or itself loaded
